@@ -102,3 +102,25 @@ func CalledWithInIter[T any](s string, i int, v T) bool { return false }
 
 // SameObject: a and b are the same map / slice / channel object (reference equality).
 func SameObject[T any](a, b T) bool { return false }
+
+// IterArg / IterRet: argument i / result i of the last call matching s within
+// the current loop iteration.
+func IterArg[T any](s string, i int) T { var z T; return z }
+func IterRet[T any](s string, i int) T { var z T; return z }
+
+// RunClosure runs, on this path, the most recent closure created on this path
+// whose function name contains s, so that a specification can state what a
+// registered callback would do. Reports whether such a closure was found.
+func RunClosure(s string) bool { return false }
+
+// Same: a and b are equal as modelled values (works for types Go cannot compare with ==).
+func Same[T any](a, b T) bool { return false }
+
+// CallTarget calls the function under contract with the given arguments; used
+// when the target cannot be named in Go (function literals). CallTargetR is
+// the variant for a target with one result.
+func CallTarget(args ...any)           {}
+func CallTargetR[R any](args ...any) R { var z R; return z }
+
+// FreeVar: the value of the variable named name captured by the closure under contract.
+func FreeVar[T any](name string) T { var z T; return z }
